@@ -179,3 +179,8 @@ def run(ctx):
     ctx.ob('R25.4', pb.n, 'the first instruction is compared with OP_RETURN, then the second with Runestone::MAGIC_NUMBER', okp, f'{[d for _, d in pcs]}', where(pb, pb.line))
     mn = (F.consts.get('ordinals::runestone::Runestone::MAGIC_NUMBER') or {}).get('v')
     ctx.ob('R25.4', pb.n, 'MAGIC_NUMBER = OP_PUSHNUM_13 (0x5d)', mn == 0x5d, f'{mn}', where(pb, pb.line), nontrivial=False)
+
+
+# sensitivity pack (thorough tier): each seeded edit must be reported by the named rule instance
+MUTANTS = [{'name': 'height-tags-swapped', 'file': 'crates/ordinals/src/runestone.rs', 'old': 'Tag::HeightStart.encode_option(terms.height.0, &mut payload);\n        Tag::HeightEnd.encode_option(terms.height.1, &mut payload);', 'new': 'Tag::HeightStart.encode_option(terms.height.1, &mut payload);\n        Tag::HeightEnd.encode_option(terms.height.0, &mut payload);', 'expect': ('R25.1', 'encipher', 'Tag::HeightEnd')},
+           {'name': 'flaw-does-not-stop-parsing', 'file': 'crates/ordinals/src/runestone/message.rs', 'old': '            flaw.get_or_insert(Flaw::EdictRuneId);\n            break;', 'new': '            flaw.get_or_insert(Flaw::EdictRuneId);\n            continue;', 'expect': ('R25.2', 'from_integers', 'EdictRuneId')}]
